@@ -2,6 +2,7 @@ package harness
 
 import (
 	"fmt"
+	"net/url"
 	"os"
 	"reflect"
 	"strings"
@@ -175,6 +176,9 @@ func c13Rules() []string {
 		// (a long run of required/exist markers on a recursive type makes every marker descend on its own:
 		// exponential work by construction, not a hang - the long list uses a leaf rule instead)
 		strings.Repeat("required,", 6), strings.Repeat("phone,", 200), strings.Repeat("'", 101), strings.Repeat("(", 50) + strings.Repeat(")", 50), "re='" + strings.Repeat("(", 2000) + "'", "in=(" + strings.Repeat("a/", 500) + ")",
+		// well-formed rules (hostile values meet ordinary rules)
+		"json", "json|bad json", "phone", "email", "idcard", "ip", "ipv4", "ipv6", "year", "year2month", "date", "datetime", "datetime='/, ,:'", "date='.'", "int", "ints", "ints=:", "float", "unique", "prefix=a", "suffix=a",
+		"file", "dir", "in=(a/b)", "include=(a/b)", "re='^a+$'", "to=1~3", "ge=2", "le=2", "oto=1~3", "gt=1", "lt=3", "eq=3", "noeq=3", "required,json,unique,ints,email,datetime", "either=1,botheq=1", "botheq=2,either=2,required",
 		"说明:", "explain:", "required|说明: x; y", "to=1~2|explain: ; ", "phone|; ", "中文=中文|中文", "to=１~２", "ge=９"}
 	return out
 }
@@ -208,7 +212,50 @@ func mkC13(entry, shape, rule string) *C13Case {
 	return c
 }
 
-var c13ShapeTab = c13Shapes()
+// c13Hostile: string values that stress escaping, length limits and parsers.
+var c13Hostile = []string{
+	"a\x00'b\"\n\\\x1a", "\x00", "\x1a'", "'\"\\\r\t\n", strings.Repeat("a", 257), "{" + strings.Repeat("\"", 300), "[" + strings.Repeat("[", 5000), strings.Repeat("é", 200),
+	"\xff\xfe", strings.Repeat("9", 400), "1e400", "-0", "0x10", " ", "\t\n", strings.Repeat("1,", 3000), strings.Repeat("a@", 200) + "b.c", strings.Repeat("1:", 40), "１２３", "\u2028\ufeff",
+}
+
+func c13AllShapes() map[string]func() interface{} {
+	m := c13Shapes()
+	for i, h := range c13Hostile {
+		h := h
+		n := fmt.Sprintf("%02d", i)
+		m["hostile-string-"+n] = func() interface{} { return h }
+		m["hostile-leaf-"+n] = func() interface{} { return &lib.Leaf{Name: h, S: h, G1: h, G2: h, Tags: []string{h, h}} }
+		m["hostile-map-"+n] = func() interface{} { return map[string]string{"k": h, "z": h} }
+		m["hostile-url-"+n] = func() interface{} { return "http://a.b/c?k=" + url.QueryEscape(h) + "&z=" + h }
+		m["hostile-iface-map-"+n] = func() interface{} { return map[string]interface{}{"k": h, "z": []byte(h), "n": []string{h}} }
+	}
+	// interface-typed members holding uncomparable values of one dynamic type (group rules compare members)
+	type twoIfaces struct {
+		I  interface{}
+		I2 interface{}
+		K  interface{}
+	}
+	m["ifaces-holding-slices"] = func() interface{} { return &twoIfaces{I: []int{1}, I2: []int{1}, K: []int{2}} }
+	m["ifaces-holding-maps"] = func() interface{} {
+		return &twoIfaces{I: map[string]int{"a": 1}, I2: map[string]int{"a": 1}, K: map[string]int{}}
+	}
+	m["ifaces-holding-funcs"] = func() interface{} { return &twoIfaces{I: func() {}, I2: func() {}, K: func() {}} }
+	m["ifaces-holding-structs-with-slices"] = func() interface{} {
+		return &twoIfaces{I: lib.Leaf{Tags: []string{"a"}}, I2: lib.Leaf{Tags: []string{"a"}}, K: lib.Leaf{}}
+	}
+	m["iface-map-of-slices"] = func() interface{} {
+		return map[string]interface{}{"k": []int{1}, "z": []int{1}, "n": []int{1}, "p": []int{2}, "s": []int{1}}
+	}
+	m["iface-map-of-maps"] = func() interface{} {
+		return map[string]interface{}{"k": map[string]interface{}{"a": 1}, "z": map[string]interface{}{"a": 1}, "n": map[string]interface{}{}}
+	}
+	m["list-of-iface-maps-of-slices"] = func() interface{} {
+		return []map[string]interface{}{{"k": []string{"a"}, "z": []string{"a"}}, {"k": []string{}, "z": nil}}
+	}
+	return m
+}
+
+var c13ShapeTab = c13AllShapes()
 
 func (c *C13Case) value() interface{} {
 	if c.Shape != "" {
@@ -232,7 +279,7 @@ func runC13(c *C13Case) (panicked interface{}) {
 	rule := c.rule()
 	src := c.value()
 	rmAll := func() valid.RM {
-		rm := valid.RM{"k": rule, "z": rule, "n": rule, "p": rule, "s": rule, "K": rule, "A": rule, "": rule}
+		rm := valid.RM{"k": rule, "z": rule, "n": rule, "p": rule, "s": rule, "K": rule, "A": rule, "": rule, "I2": rule}
 		for _, f := range c13Fields {
 			rm[f] = rule
 		}
@@ -452,6 +499,9 @@ func genAnyType(t *rapid.T, depth int) (desc.T, desc.V) {
 func genValueDesc(t *rapid.T, ty desc.T, depth int) desc.V {
 	switch ty.K {
 	case "string":
+		if rapid.IntRange(0, 3).Draw(t, "hostileStr") == 0 {
+			return desc.Str(rapid.SampledFrom(c13Hostile).Draw(t, "hs"))
+		}
 		return desc.Str(rapid.SampledFrom([]string{"", "abc", "a,a", "1"}).Draw(t, "s"))
 	case "bool":
 		return desc.V{B: rapid.Bool().Draw(t, "b")}
@@ -470,6 +520,9 @@ func genValueDesc(t *rapid.T, ty desc.T, depth int) desc.V {
 			return desc.V{Nil: true}
 		}
 		dt := desc.Scalar(rapid.SampledFrom([]string{"string", "int", "bool"}).Draw(t, "dyn"))
+		if rapid.IntRange(0, 2).Draw(t, "dynSlice") == 0 { // an uncomparable dynamic value
+			dt = desc.Slice(dt)
+		}
 		return desc.V{DT: &dt, E: []desc.V{genValueDesc(t, dt, depth+1)}}
 	case "ptr":
 		if rapid.IntRange(0, 2).Draw(t, "nilP") == 0 {
